@@ -533,30 +533,73 @@ def r_reduce_positions(c):
     fd = m.func(R + "._is_normal_reduce_expr")
     where = m.loc(m.module_of(fd), fd)
     ep = fd.args.args[0].arg
-    kept = find(fd, f"""
-if $idx.name == f"_{{$ctr}}":
-    if not are_shape_components_equal($in.shape[$idim], {ep}.shape[$ctr]):
-        return False
-    $ctr += 1
-else:
-    return False
-""")
-    ok = len(kept) == 1
+    # One iteration of the per-subscript loop, tabulated by case-split evaluation
+    # (pta/symrun.py): every test met is a case.  Required of the table: where the
+    # subscript is a reduction variable the counter of kept axes does not move; where
+    # it is not, the iteration ends in `return False` unless the name is `_<counter>`
+    # AND the lengths agree, and in exactly that case the counter advances by one.
+    from pta import symrun
+    import re
+    nf = m.expand_locals(m.inlined(fd), only="aliases")
+    loops = [l for l in ast.walk(nf) if isinstance(l, ast.For)
+             and isinstance(l.target, ast.Tuple) and len(l.target.elts) == 2
+             and ast.unparse(l.iter).startswith("enumerate(")
+             and any(isinstance(x, ast.Compare) and isinstance(x.ops[0], (ast.In, ast.NotIn))
+                     and ast.unparse(x.comparators[0]).endswith(".bounds")
+                     for x in ast.walk(l))]
+    ok, why = len(loops) == 1, "per-subscript loop not found"
     if ok:
-        ctr = kept[0]["$ctr"]
-        incs = [x for x in ast.walk(fd) if isinstance(x, ast.AugAssign)
-                and ast.unparse(x.target) == ctr]
-        inits = find(fd, f"{ctr} = 0")
-        # the matched `if` is the else-arm of the test for reduction variables
-        par = kept[0]["@node"]._parent
-        in_else = isinstance(par, ast.If) and kept[0]["@node"] in par.orelse \
-            and "bounds" in ast.unparse(par.test)
-        ok = len(incs) == 1 and len(inits) == 1 and in_else
+        loop = loops[0]
+        idim, idx = (t.id for t in loop.target.elts)
+        try:
+            tab = symrun.table(loop.body, lambda t: None)
+        except AnalysisError as e:
+            tab, ok, why = {}, False, str(e)
+        n_adv = 0
+        for cs, ev in tab.items():
+            cs = dict(cs)
+            red = [v for k, v in cs.items() if re.fullmatch(
+                re.escape(idx) + r"\.name in .*\.bounds", k)]
+            name = [(k, v) for k, v in cs.items() if re.fullmatch(
+                re.escape(idx) + r"\.name == f'_\{(\w+)\}'", k)]
+            augs = [e for e in ev if e[0] == "aug"]
+            ends_false = bool(ev) and ev[-1] == ("exit", "return False")
+            if not red:
+                # left before the subscript was classified (e.g. not a variable)
+                if augs:
+                    ok, why = False, "the counter moves before the subscript is classified"
+                continue
+            if red[0]:
+                if augs:
+                    ok, why = False, "the counter of kept axes advances on a reduced axis"
+                continue
+            if not name:
+                if not ends_false or augs:
+                    ok, why = False, "a kept axis is accepted without testing its name"
+                continue
+            ctr = re.fullmatch(r".*f'_\{(\w+)\}'", name[0][0]).group(1)
+            length = [v for k, v in cs.items() if re.fullmatch(
+                r"are_shape_components_equal\(.*\.shape\[" + re.escape(idim) + r"\], "
+                + re.escape(ep) + r"\.shape\[" + re.escape(ctr) + r"\]\)", k)]
+            if name[0][1] and length and length[0]:
+                if augs != [("aug", ctr, "Add", "1")] or any(e[0] == "exit" and e[1] != "continue"
+                                                             for e in ev):
+                    ok, why = False, ("a matched kept axis does not advance the counter by "
+                                      f"exactly one and go on: {ev}")
+                n_adv += 1
+            elif not ends_false or augs:
+                ok, why = False, (f"a kept axis whose name or length does not match is not "
+                                  f"rejected: cases {cs} -> {ev}")
+        if ok and n_adv != 1:
+            ok, why = False, "no case in which a kept axis is matched (name, then length)"
+        inits = find(nf, f"{ctr} = 0") if ok else []
+        if ok and len(inits) != 1:
+            ok, why = False, "the counter does not start at 0"
     c.check(ok, "R19-PATTERN", "_is_normal_reduce_expr", "kept-axes-matched-in-order", where,
             "the kept (non-reduced) subscripts are not matched as _0, _1, ... in order with "
             "a counter that advances exactly once per matched kept axis: a reduction with "
             "permuted or skipped output subscripts is raised to a plain ReduceOp, or an "
-            "API-made reduction over a leading axis is reported unknown")
+            f"API-made reduction over a leading axis is reported unknown ({why})")
 
 
 SPEC = Spec(
